@@ -13,7 +13,7 @@ Lemma loc_accepted n sched l :
   mon1_run l (holders0 fixed l) (exec fixed n sched) <> None.
 Proof.
   unfold exec.
-  destruct l as [ | | | k i | k | i | k i ph | x | | j | | | | | fi | ].
+  destruct l as [ | | | k i | k | i | k i ph | x | | j | | | | | fi | | ].
   - apply (fam_run n WFtrue _ _ (WFtrue_step n) (fam_next n)); [exact Logic.I | apply (proj1 (fam_next n))].
   - apply (fam_run n WFtrue _ _ (WFtrue_step n) (fam_etrig n)); [exact Logic.I | apply (proj1 (fam_etrig n))].
   - apply (fam_run n WFtrue _ _ (WFtrue_step n) (fam_timing n)); [exact Logic.I | apply (proj1 (fam_timing n))].
@@ -30,6 +30,7 @@ Proof.
   - apply (fam_run n (WFq n) _ _ (WFq_step n) (fam_status n)); [apply WFq_init | apply (proj1 (fam_status n))].
   - apply (fam_run n WFtrue _ _ (WFtrue_step n) (fam_file n fi)); [exact Logic.I | apply (proj1 (fam_file n fi))].
   - apply (fam_run n WFtrue _ _ (WFtrue_step n) (fam_state n)); [exact Logic.I | apply (proj1 (fam_state n))].
+  - apply (fam_run n WFtrue _ _ (WFtrue_step n) (fam_mix n)); [exact Logic.I | apply (proj1 (fam_mix n))].
 Qed.
 
 (* every access of every execution is made by a holder of the location, and ownership moves only along
@@ -77,8 +78,8 @@ Theorem refuted_rate_shared_thm : ~ RaceFree (exec only_rate 1 w_rate).
 Proof. destruct witnesses_racy as (_ & _ & _ & _ & _ & F & _). now apply racy_not_race_free. Qed.
 
 (* the hypothesis of [monitor_sound_gen] is met by non-trivial traces: a complete block with two channels
-   followed by an archive request that fills, 110 events *)
+   followed by an archive request that fills, 112 events *)
 Example monitor_sound_hypothesis_met :
   monitor_accepts fixed (exec fixed 2 (one_block 2 ++ w_arch)) = true /\
-  length (exec fixed 2 (one_block 2 ++ w_arch)) = 110.
+  length (exec fixed 2 (one_block 2 ++ w_arch)) = 112.
 Proof. vm_compute. split; reflexivity. Qed.
